@@ -73,7 +73,7 @@ func canNameMatch(f1, f2 *Field, tagMap map[string]string, ignoreCase bool) bool
 
 	m1 := f1.MatchingName()
 	m2 := f2.MatchingName()
-	tag, ok := tagMap[m1]
+	tag, ok := tagMap[transfer.ToPascalCase(m1)]
 	if ok {
 		m1 = tag
 	}
